@@ -4,6 +4,8 @@ package main
 import (
 	"fmt"
 	"math/rand"
+	"os"
+	"time"
 
 	"verif/ev"
 	"verif/gen"
@@ -54,7 +56,9 @@ func main() {
 		"key-heavy block trees (create / overwrite / delete / re-create / several writes per block, forks, shared transactions) x op sequences (confirm, play, own blocks, walks incl. "+
 			"reorganisations, reopen, pending pool writes); whenever state and ledger are synchronised, for EVERY block B of the chain and every key of the universe "+
 			"CreateSnapshot(B).Get (value+version) and CreateXMSnapshotReader(B).Get are compared with what the live reader answered when B was the tip (recorded on a history-free node); the tip "+
-			"snapshot is additionally checked never to expose pending writes; case = one history; non-trivial = a reorganisation happened and a pool write was pending during an audit")
+			"snapshot is additionally checked never to expose pending writes; case = one history; non-trivial = a reorganisation happened and a pool write was pending during an audit; "+
+			"plus readers running BESIDE block processing (one growing chain, peer blocks and own blocks, pending traffic on the same keys, storage-latency jitter): snapshots of already applied "+
+			"blocks, the tip reader, and strict tip-by-id readers (GetLatestBlockid, then CreateXMSnapshotReader / CreateSnapshot of exactly that id; expected answer = a function of the id alone)")
 	defer sn.CleanupScratch()
 	nh := r.N(150, 4000)
 	o := gen.DefaultOpts()
@@ -166,9 +170,26 @@ func main() {
 		}
 		return nil
 	})
+	t0 := time.Now() // progress only (stderr), never part of a verdict
 	concurrentReaders(r)
+	t1 := time.Now()
+	pendingDeleteReaders(r)
+	fmt.Fprintf(os.Stderr, "C18: concurrent readers %.1fs, readers beside pool roll-back %.1fs\n", t1.Sub(t0).Seconds(), time.Since(t1).Seconds())
 	r.Floor("conc.snapshot-reads", 20000)
 	r.Floor("conc.pool-rollbacks", 50)
+	// the strict tip-by-id readers: enough reads that can tell a tip block from its parent, enough of
+	// them while the operation that applies the block was still running, over enough blocks of both
+	// the receive paths and the miner's own-block path
+	r.Floor("conc.strict-tip-reads", 10000)
+	r.Floor("conc.strict-tip-reads.key-changed-by-the-tip-block", 4000)
+	r.Floor("conc.strict-tip-reads.before-the-applying-op-returned", 500)
+	r.Floor("conc.blocks-applied.changing-a-read-key", 80)
+	r.Floor("conc.blocks-applied.own-block-path", 30)
+	r.Floor("conc.blocks-applied.receive-path", 15)
+	// readers beside the pool's roll-back / re-admission of pending deletes
+	r.Floor("conc.pending-delete.pool-rollbacks", 600)
+	r.Floor("conc.pending-delete.snapshot-reads", 5000)
+	r.Floor("conc.pending-delete.rounds-with-the-deletes-still-pending-at-the-end", 2)
 	r.Floor("snap.audits", 800)
 	r.Floor("snap.reads", 50000)
 	r.Floor("snap.reads.written-key", 5000)
